@@ -20,7 +20,8 @@ FINISH = {"level": "proof", "assumptions": [
     "queue, value, commandAofs / aofLocks sizes, journal backlog, STATE counters) are compared",
     "model and theorems are about the code AFTER the repairs e4ad793 (re-entrant require-ack LOCK: its UPDATED record is journalled without "
     "the ack registration), 804e6dc (unlock-first honours ackCount != 0xff) and f622546 (ProcessLeaderPushLock does not register a lock "
-    "that is no longer held). Their reproducers are corpus/ack_fixed.ops, replayed in every run: a disagreement, a crash, a reference-count "
+    "that is no longer held), and with the C04 repair (wake pass after a queued request's TIMEOUT and after a re-entrant re-lock's reply; "
+    "its cancel-wait and UPDATE sites are outside the command subset). The C11 reproducers are corpus/ack_fixed.ops, replayed in every run: a disagreement, a crash, a reference-count "
     "anomaly or any monitor failure there other than C11:succed-before-aofed:reentrant is reported; the monitor signatures of the repaired "
     "defects (C11:reply-count:duplicate:*, C11:reply-count:lost:*, C11:no-ack-waiting-answer:unlock-first, C11:table-entry-of-freed-lock, "
     "C11:live-hold-object-freed) are kept and fire on a regression",
